@@ -1008,7 +1008,10 @@ func (s *Service) ProcessRequest(ctx *core.Context, m map[string]interface{}, ou
 			return nil, err
 		}
 
-		_, take := m["take"]
+		take, _, err := getBoolParam(m, "take", false)
+		if err != nil {
+			return nil, err
+		}
 		if take {
 			// Warning: Not (yet) atomic!
 			for _, found := range sr.Found {
